@@ -61,6 +61,8 @@ TC = 'C | Cee, radec target fluxcal, 05:00:00.0, -20:00:00.0'
 TARGETS = [TA, TB, TC]
 NUMERIC_SENSOR = dict(v1='Antennas/%s/pos_actual_scan_', v2='Antennas/%s/pos.actual-scan-',
                       v3='Antennas/%s/pos_actual_scan_', v4='%s_pos_actual_scan_')        # + azim | elev
+# every antenna of a fixture gets the SAME stored activity history
+STATE_SENSORS = dict(v2=('Antennas/%s/activity',), v3=('Antennas/%s/activity',), v4=('%s_activity',))
 CATEGORICAL_SENSOR = dict(v1='Antennas/%s/drive_mode', v2='Antennas/%s/drive.mode', v3='Antennas/%s/drive_mode',
                           v4='%s_drive_mode')
 T0 = dict(v1=1200000000.0, v2=1300000000.0, v3=1500000000.0, v4=1600000000.0 + 123.0)
@@ -470,7 +472,9 @@ def impl_observe(fx):
                    cache_ts=[Fraction(float(t)) for t in np.asarray(d.sensor.timestamps[:], dtype=float)],
                    numeric=dict((nm, np.array(d.sensor[nm], dtype=float)) for nm, _, _, _ in fx.numeric),
                    categorical=dict((nm, [as_str(x) for x in d.sensor[nm]]) for nm, _, _ in fx.categorical),
-                   ants=[a.name for a in d.ants], az=np.array(d.az, dtype=float), el=np.array(d.el, dtype=float))
+                   ants=[a.name for a in d.ants], az=np.array(d.az, dtype=float), el=np.array(d.el, dtype=float),
+                   state=dict((pat % a, [getattr(x, 'description', None) or as_str(x) for x in d.sensor[pat % a]])
+                              for pat in STATE_SENSORS.get(fx.fmt, ()) for a in fx.ant_names))
     return out
 
 
@@ -848,6 +852,20 @@ def compare_sensors(ctx, fx, case, ob, mts, tsmap, mdumps, mcache, meval, msynth
                 return [f[i] for i in mdumps]
             ctx.disagree('fmt=%s;attr=sensor:categorical;what=%s' % (fmt, symptom(got, at_synth)), case, got[:12], exp[:12],
                          'd.sensor[%r] is not the value in force at each selected dump' % nm, spec=exp[:12])
+    # activity: all antennas of the fixture have the same stored history, so (the alignment of events with dumps being
+    # a function of history and time grid: C01_sensors_of_selected_dumps) the same per-dump array.  The reference
+    # antenna's is extracted while the scans are built, the others afterwards.  Dump 0 is left out: the readers fold a
+    # first dump that precedes a slew into that slew, in place, on the reference antenna's cached sensor (C03's
+    # business); the target sensors are not compared at all: the reference antenna's is moved onto the scan starts.
+    for pat in STATE_SENSORS.get(fmt, ()):
+        keep = [i for i, dmp in enumerate(mdumps) if dmp > 0]
+        arrs = [[ob['state'][pat % a][i] for i in keep] if len(ob['state'][pat % a]) == len(mdumps) else ob['state'][pat % a]
+                for a in fx.ant_names]
+        if any(a != arrs[-1] for a in arrs):
+            ctx.disagree('fmt=%s;attr=sensor:refant_state;what=differs_between_antennas' % fmt, case,
+                         dict((pat % a, x[:12]) for a, x in zip(fx.ant_names, arrs)), arrs[-1][:12],
+                         'antennas with the same stored activity history have different per-dump arrays: the reference '
+                         "antenna's was aligned with another time grid than the data set's timestamps", spec=arrs[-1][:12])
     exp = np.array([katpoint.Timestamp(float(t)).to_mjd() for t in mts], dtype=float)
     got = np.asarray(ob['mjd'], dtype=float)
     if got.shape != exp.shape or not np.array_equal(got, exp):
